@@ -52,7 +52,8 @@ CLAIMED = {
           "run by tools/gen_tokentable.py): proved that lexer errors refuse the input, that acceptance means nodes followed by "
           "the end of input, and that every well-formed written statement sequence is accepted and read as the dialogue it "
           "stands for (C05_written_statements_are_accepted), lifted to whole scripts with the model's own fuel proved "
-          "sufficient (C05_every_written_script_is_loaded: from_reader 0 (p_script tags ns) = Some (map mean_node ns)); family stmtparse compares this model "
+          "sufficient (C05_every_written_script_is_loaded: from_reader 0 (p_script tags ns) = Some (map mean_node ns); "
+          "C05_every_written_script_is_loaded_real_tokens with expressions as real tokens); family stmtparse compares this model "
           "with tree.FromReader on the real lexer's tokens for printed, mutated, cut and soup inputs (accept/refuse and the "
           "dialogue built), with an independent expectation for printed programs.",
   "design_ref": "DESIGN.md section 5, C05",
@@ -72,7 +73,9 @@ CLAIMED = {
           "INDENT ... DEDENT block around any run of statements at any depth - is read back as the dialogue it stands for, so "
           "whether and how far a body is indented does not matter to the parser "
           "(C08_written_statements_are_read_back_whatever_is_indented, C08_an_indented_block_is_the_statements_in_it, "
-          "C08_every_written_script_is_loaded for whole scripts with headers and file tags, no fuel premise); "
+          "C08_every_written_script_is_loaded for whole scripts with headers and file tags, no fuel premise; "
+          "C08_every_written_script_is_loaded_real_tokens with the expressions written as tokens of the real vocabulary - "
+          "no parameter left, the one condition being that each numeral's text is read back as that number); "
           "family stmtparse compares the model with tree.FromReader on the real lexer's tokens. Not proved: that the "
           "generated lexer/parser treat CRLF, operator spellings, blanks inside commands and reader splits alike - every "
           "generated program is rendered under 11 layouts and all parsed dialogues and traces are compared; family "
@@ -158,7 +161,7 @@ CLAIMED = {
           "precedence predicates prescribe, the lexer (spellings, literals) and the listener's callback stack are "
           "modelled/observed - family exprparse compares the parser model with the implementation's parser+listener on "
           "token sequences (and judges written-down trees against the generator's own table), family exprs requires the "
-          "AST round trip before comparing values.",
+          "AST round trip before comparing values. Proofs/ExprFuelProofs.v makes the fuel explicit: 2 * tokens + 1 suffice, so the fixed fuel of parse_expression (4 * tokens + 4) reads every written form back (written_expression_parses).",
   "design_ref": "DESIGN.md section 5, C02",
   "note": "Numbers are Flocq binary64 with round-to-nearest-even; math.Mod is an exact remainder model. Axioms: the four "
           "stdlib axioms behind Flocq's reals for the evaluator theorems; the grouping theorems are closed under the "
@@ -174,7 +177,11 @@ CLAIMED = {
           "TextForAttribute returns exactly the text the marker enclosed - 'enclosed' being defined on the document "
           "itself, without positions; a close marker without an open one is an error. Also: text without markup is "
           "returned as it is (plain_text_identity), TextForAttribute returns exactly [length] characters at [position]. "
-          "Not proved: markers with properties, self-closing and replacement markers, the character prefix and trimmed "
+          "The same round trip with typed properties (C13_document_with_properties_roundtrip, Proofs/MarkupPropsProofs.v): open "
+          "markers written [name k=v ...] or [name=v k=v ...] with decimal integers, decimals (ParseFloat of the text), true/false, quoted strings and bare words - "
+          "the attribute of every closed marker carries exactly the property map of what was written (plain_form_written, "
+          "short_form_written: parseAttributeMarker on every such written form). "
+          "Not proved: self-closing and replacement markers, the character prefix and trimmed "
           "edge blanks inside that round trip. Correspondence: documents from a grammar, "
           "model vs implementation, and for structured documents the implementation vs the meaning the generator knows "
           "by construction (independent oracle).",
